@@ -57,9 +57,11 @@ def run(ctx):
     if thorough:
         plan = {"plain": (120000, 80000, 6000, 48, 1), "asan": (30000, 20000, 1500, 16, 1), "tsan": (16000, 10000, 800, 16, 1)}
         multi = {"plain": 20000, "asan": 5000, "tsan": 2500}
+        cancel = {"plain": 4000, "asan": 1200, "tsan": 600}
     else:
         plan = {"plain": (2400, 1200, 256, 8, 41), "tsan": (800, 400, 64, 4, 499)}
         multi = {"plain": 600, "tsan": 160}
+        cancel = {"plain": 192, "tsan": 48}
     jobs = []
     exh_runs = {}
     for fl in flavors:
@@ -72,6 +74,9 @@ def run(ctx):
         # multi-session transports; thorough: every 200th one at the default GC threshold with >1024 short-lived sessions
         for s, c in _split(multi[fl], par):
             jobs.append(lambda b=b, s=s, c=c: _worker(ctx, b, "multi", ctx.seed, s, c, extra=("--big-every", 200 if thorough else 0)))
+        # reader in receiveSyncCancellable, token.cancel() placed around scripted arrivals (each history spends ~0.1 s in slices)
+        for s, c in _split(cancel[fl], 2 * par):
+            jobs.append(lambda b=b, s=s, c=c: _worker(ctx, b, "cancel", ctx.seed, s, c))
         if stride:
             off = 0 if stride == 1 else ctx.seed % stride   # quick: a seeded residue class of the space
             n = (space - off + stride - 1) // stride
@@ -103,7 +108,8 @@ def run(ctx):
     ctx.rule = ("history = (chunking of a self-describing stream, maxSyncReceiveBuffer, initial mode, arrival pacing, reader buffer-length and "
                 "timeout profile, mode-switch/close script with gates, callback delay, pre-park delay); conc = 3-4 threads racing, seq = one "
                 "director, multi = 2-6 Sync sessions on one Transport with syncBufferGcThreshold 1..8 closing with undrained tails while "
-                "unrelated sessions open/close (tombstone GC), late drains with buffers of 1..8 bytes, exh = enumerated small scope, tcp = real engine + raw peer writing data and FIN back to back. distinct = hash of "
+                "unrelated sessions open/close (tombstone GC), cancel = reader in receiveSyncCancellable with token.cancel() placed before/after/"
+                "without a scripted arrival inside the 100 ms slice, pre-cancelled tokens, late drains with buffers of 1..8 bytes, exh = enumerated small scope, tcp = real engine + raw peer writing data and FIN back to back. distinct = hash of "
                 "(kind, #chunks class, overflow possible/reported, definitely-Disabled chunk, ambiguous chunk, flush handed bytes, flush raced "
                 "an arrival, reader inside call at close, bytes drained after close, Cancelled/Timeout/PeerClosed seen, late-caller data, "
                 "direct callbacks, close origin, unexplained gap)")
@@ -118,7 +124,8 @@ def run(ctx):
         "TSan builds perturb from harness threads only (no condvar shim); the pre-park delay runs in plain/asan builds",
     ]
     # only things the workloads produce by construction (race outcomes are reported, not required)
-    need = ["histories_conc", "histories_seq", "histories_exh", "histories_tcp", "histories_multi", "recv_data", "recv_PeerClosed",
+    need = ["histories_conc", "histories_seq", "histories_exh", "histories_tcp", "histories_multi", "histories_cancel", "recv_cancelled_by_token",
+            "cancel_during_call_data_still_returned", "recv_data", "recv_PeerClosed",
             "recv_BufferOverflow", "recv_Timeout", "flush_handed_bytes", "close_then_buffered_bytes_drained",
             "chunks_definitely_disabled", "cb_direct", "cb_flush", "late_caller_data_results", "tcp_peerclosed_after_full_drain",
             "tcp_reader_parked_before_peer_wrote", "multi_other_close_while_closed_tail_undrained", "multi_filler_closes"]
